@@ -22,6 +22,7 @@ import (
 	"strings"
 	"sync"
 	"testing"
+	"time"
 
 	"github.com/prometheus/prometheus/model/labels"
 	"google.golang.org/grpc"
@@ -49,11 +50,74 @@ type c17Stream struct {
 	mu         sync.Mutex
 	i          int
 	closeSends int
+
+	// in-flight message: the Recv call that would deliver frame holdAt waits until the request's
+	// context is cancelled (the request ended early) or 30 ms passed, and then delivers the frame all
+	// the same - a message that was already on the wire. When it was woken by the cancellation it first
+	// takes every buffer out of the proxy's pool and remembers its content (probe); the next call on
+	// this stream (Recv / CloseSend) or the end of the request compares: a buffer that sat in the pool
+	// must not have been written to by the goroutine that was still processing the message.
+	holdAt int
+	pool   *sync.Pool
+	alloc  *c17Alloc
+	held   []*[]byte
+	snaps  []string
+	probed bool
+	viol   string
+}
+
+func (s *c17Stream) probe() {
+	s.probed = true
+	for k := 0; k < 3; k++ {
+		runtime.Gosched() // let the closing goroutine run up to its blocking point
+	}
+	for {
+		before := s.alloc.count()
+		x := s.pool.Get().(*[]byte)
+		if s.alloc.count() > before {
+			// the pool was empty and made a new one: nothing (more) was in it
+			s.held = append(s.held, x)
+			s.snaps = append(s.snaps, "")
+			return
+		}
+		s.held = append(s.held, x)
+		s.snaps = append(s.snaps, fmt.Sprintf("%d:%x", len(*x), (*x)[:cap(*x)]))
+	}
+}
+
+// verify compares the probed buffers and puts them back; idempotent.
+func (s *c17Stream) verify() {
+	for k, x := range s.held {
+		if s.snaps[k] != "" && s.viol == "" {
+			if now := fmt.Sprintf("%d:%x", len(*x), (*x)[:cap(*x)]); now != s.snaps[k] {
+				s.viol = fmt.Sprintf("a shard buffer that was already back in the pool was written to while the stream's receive goroutine processed an in-flight message (content %s -> %s): released while in use", s.snaps[k], now)
+			}
+		}
+		s.pool.Put(x)
+	}
+	s.held, s.snaps = nil, nil
 }
 
 func (s *c17Stream) Recv() (*storepb.SeriesResponse, error) {
 	s.mu.Lock()
 	defer s.mu.Unlock()
+	s.verify()
+	if s.holdAt >= 0 && s.i == s.holdAt && s.i < len(s.frames) && !(s.errAfter >= 0 && s.i >= s.errAfter) && s.ctx.Err() == nil {
+		s.holdAt = -1
+		s.mu.Unlock()
+		woken := false
+		select {
+		case <-s.ctx.Done():
+			woken = true
+		case <-time.After(30 * time.Millisecond):
+		}
+		s.mu.Lock()
+		if woken {
+			s.probe()
+			s.i++
+			return s.frames[s.i-1], nil
+		}
+	}
 	if err := s.ctx.Err(); err != nil {
 		return nil, status.FromContextError(err).Err()
 	}
@@ -70,6 +134,9 @@ func (s *c17Stream) Header() (metadata.MD, error) { return nil, nil }
 func (s *c17Stream) Trailer() metadata.MD         { return nil }
 func (s *c17Stream) CloseSend() error {
 	s.mu.Lock()
+	s.verify()
+	s.mu.Unlock()
+	s.mu.Lock()
 	s.closeSends++
 	s.mu.Unlock()
 	return nil
@@ -85,6 +152,9 @@ type c17Client struct {
 	errAfter        int
 	sharding        bool
 	withoutReplicas bool
+	holdAt          int
+	pool            *sync.Pool
+	alloc           *c17Alloc
 
 	mu      sync.Mutex
 	streams []*c17Stream
@@ -94,7 +164,7 @@ func (c *c17Client) Series(ctx context.Context, _ *storepb.SeriesRequest, _ ...g
 	if c.openFails {
 		return nil, errors.New("cannot open stream")
 	}
-	s := &c17Stream{ctx: ctx, frames: c.frames, errAfter: c.errAfter}
+	s := &c17Stream{ctx: ctx, frames: c.frames, errAfter: c.errAfter, holdAt: c.holdAt, pool: c.pool, alloc: c.alloc}
 	c.mu.Lock()
 	c.streams = append(c.streams, s)
 	c.mu.Unlock()
@@ -163,6 +233,7 @@ type c17Store struct {
 	errAfter  int
 	sharding  bool
 	withoutRL bool
+	holdAt    int // >=0: the Recv call delivering this frame is an in-flight message (see c17Stream)
 }
 
 type c17Case struct {
@@ -201,6 +272,9 @@ func (c c17Case) String() string {
 		}
 		if s.errAfter >= 0 {
 			fmt.Fprintf(&sb, " errAfter=%d", s.errAfter)
+		}
+		if s.holdAt >= 0 {
+			fmt.Fprintf(&sb, " inflightAt=%d", s.holdAt)
 		}
 		fmt.Fprintf(&sb, " sharding=%v withoutRL=%v", s.sharding, s.withoutRL)
 	}
@@ -248,7 +322,7 @@ func c17Run(c c17Case, tolerateClose bool) c17Result {
 	clients := make([]*c17Client, len(c.stores))
 	cl := make([]Client, len(c.stores))
 	for i, s := range c.stores {
-		clients[i] = &c17Client{name: fmt.Sprintf("s%d", i), frames: c17Frames(s), openFails: s.openFails, errAfter: s.errAfter, sharding: s.sharding, withoutReplicas: s.withoutRL}
+		clients[i] = &c17Client{name: fmt.Sprintf("s%d", i), frames: c17Frames(s), openFails: s.openFails, errAfter: s.errAfter, sharding: s.sharding, withoutReplicas: s.withoutRL, holdAt: s.holdAt}
 		cl[i] = clients[i]
 	}
 	var opts []ProxyStoreOption
@@ -258,6 +332,9 @@ func c17Run(c c17Case, tolerateClose bool) c17Result {
 	p := NewProxyStore(nil, nil, func() []Client { return cl }, component.Query, labels.EmptyLabels(), 0, c.strategy, opts...)
 	alloc := &c17Alloc{}
 	p.buffers = sync.Pool{New: alloc.new}
+	for _, fc := range clients {
+		fc.pool, fc.alloc = &p.buffers, alloc
+	}
 
 	req := &storepb.SeriesRequest{
 		MinTime: 0, MaxTime: 1000,
@@ -276,6 +353,25 @@ func c17Run(c c17Case, tolerateClose bool) c17Result {
 	}
 	srv := &c17Server{ctx: context.Background(), failAfter: c.sendFailAt}
 	err := p.Series(req, srv)
+
+	inflight := false
+	for _, fc := range clients {
+		for _, st := range fc.streams {
+			st.mu.Lock()
+			st.verify()
+			inflight = inflight || st.probed
+			if st.viol != "" && r.msg == "" {
+				r.msg = fmt.Sprintf("store %s: %s (Series err=%v)", fc.name, st.viol, err)
+			}
+			st.mu.Unlock()
+		}
+	}
+	if r.msg != "" {
+		return r
+	}
+	if inflight {
+		r.classes = append(r.classes, "in-flight-message-when-the-request-ended")
+	}
 
 	handed := alloc.count()
 	// drain: everything that was Put comes out before New is called again.
@@ -391,7 +487,7 @@ func c17GenStore(rt *rapid.T) c17Store {
 		}
 		return s.series[i][1] < s.series[j][1]
 	})
-	s.batchAt, s.warnAt, s.errAfter = -1, -1, -1
+	s.batchAt, s.warnAt, s.errAfter, s.holdAt = -1, -1, -1, -1
 	if rapid.IntRange(0, 4).Draw(rt, "batch") == 0 && len(s.series) > 0 {
 		s.batchAt = rapid.IntRange(0, len(s.series)-1).Draw(rt, "batchAt")
 	}
@@ -439,6 +535,14 @@ func c17Gen(rt *rapid.T) c17Case {
 		c.sendFailAt = rapid.IntRange(0, 3).Draw(rt, "sendFailAt")
 	}
 	c.lazyBuf = rapid.SampledFrom([]int{0, 1, 2, 20}).Draw(rt, "lazyBuf")
+	// in-flight messages only where something can end the request early (else the hold just times out)
+	if c.sendFailAt >= 0 || c.limit > 0 || c.abort {
+		for i := range c.stores {
+			if rapid.IntRange(0, 2).Draw(rt, "inflight") == 0 {
+				c.stores[i].holdAt = rapid.IntRange(0, 3).Draw(rt, "inflightAt")
+			}
+		}
+	}
 	return c
 }
 
@@ -459,7 +563,7 @@ func TestVerifC17_ProxyShardBuffers(t *testing.T) {
 	c17Setup(t)
 
 	one := func(series ...[2]string) c17Store {
-		return c17Store{series: series, batchAt: -1, warnAt: -1, errAfter: -1, withoutRL: true}
+		return c17Store{series: series, batchAt: -1, warnAt: -1, errAfter: -1, holdAt: -1, withoutRL: true}
 	}
 	// saved regression input of finding F5: one store, one series, one shard; the stream is exhausted,
 	// the loser tree closes it, the deferred Close closes it again: the matcher's buffer is Put twice.
@@ -484,7 +588,7 @@ func TestVerifC17_ProxyShardBuffers(t *testing.T) {
 	// fixed inputs in which no stream is exhausted before the request ends (each respSet is closed
 	// once): ABORT on a leading warning, and a failing client Send.
 	for _, c := range []c17Case{
-		{stores: []c17Store{{series: [][2]string{{"1", "1"}, {"2", "2"}}, batchAt: -1, warnAt: 0, errAfter: -1, withoutRL: true}, one([2]string{"1", "2"}, [2]string{"3", "3"})},
+		{stores: []c17Store{{series: [][2]string{{"1", "1"}, {"2", "2"}}, batchAt: -1, warnAt: 0, errAfter: -1, holdAt: -1, withoutRL: true}, one([2]string{"1", "2"}, [2]string{"3", "3"})},
 			strategy: EagerRetrieval, shard: &storepb.ShardInfo{TotalShards: 2, ShardIndex: 1, By: true, Labels: []string{"a"}}, abort: true, sendFailAt: -1},
 		{stores: []c17Store{one([2]string{"1", "1"}, [2]string{"2", "2"}), one([2]string{"1", "2"}, [2]string{"3", "3"})},
 			strategy: LazyRetrieval, shard: &storepb.ShardInfo{TotalShards: 1}, sendFailAt: 0},
